@@ -163,7 +163,11 @@ func (bh *BlankHost) NewStream(ctx context.Context, p peer.ID, protos ...protoco
 		return nil, fmt.Errorf("failed to negotiate protocol: %w", err)
 	}
 
-	s.SetProtocol(selected)
+	if err := s.SetProtocol(selected); err != nil {
+		// the protocol's resource scope refused the stream
+		s.ResetWithError(network.StreamResourceLimitExceeded)
+		return nil, err
+	}
 	bh.Peerstore().AddProtocols(p, selected)
 
 	return s, nil
@@ -209,7 +213,12 @@ func (bh *BlankHost) newStreamHandler(s network.Stream) {
 		return
 	}
 
-	s.SetProtocol(protoID)
+	if err := s.SetProtocol(protoID); err != nil {
+		// the protocol's resource scope refused the stream: do not dispatch
+		log.Debug("error setting stream protocol", "err", err)
+		s.ResetWithError(network.StreamResourceLimitExceeded)
+		return
+	}
 
 	handle(protoID, s)
 }
